@@ -155,6 +155,19 @@ fn effect(kind: Kind, busy_us: u64) {
     }
 }
 
+/// A task starts: it logs its start and has its effect.  For a task that stops the System or its arbiter the command is sent
+/// BEFORE the start is logged: the model takes "the task started" and "its stop was issued" for one step, and a coordinator that
+/// waits for the start (`aw`) must not be able to slip its own stop in between (seen once in 4 000 scripts on a loaded machine).
+fn start(sh: &Shared, k: usize, tid: usize, kind: Kind, busy_us: u64) {
+    if matches!(kind, Kind::StopSys(_) | Kind::StopSelf) {
+        effect(kind, busy_us);
+        record(sh, k, tid);
+    } else {
+        record(sh, k, tid);
+        effect(kind, busy_us);
+    }
+}
+
 /// send one task through `spawn` or `spawn_fn` of an ArbiterHandle-like sender
 fn send_task(
     spawn: &dyn Fn(std::pin::Pin<Box<dyn std::future::Future<Output = ()> + Send>>) -> bool,
@@ -168,15 +181,13 @@ fn send_task(
 ) -> bool {
     if is_fn && kind != Kind::Pend && kind != Kind::PendSlow {
         spawn_fn(Box::new(move || {
-            record(&sh, k, tid);
-            effect(kind, busy_us);
+            start(&sh, k, tid, kind, busy_us);
         }))
     } else {
         let guard = if kind == Kind::PendSlow { Some(SlowGuard(sh.clone(), k)) } else { None };
         spawn(Box::pin(async move {
             let _guard = guard;
-            record(&sh, k, tid);
-            effect(kind, busy_us);
+            start(&sh, k, tid, kind, busy_us);
             if kind == Kind::Pend || kind == Kind::PendSlow {
                 std::future::pending::<()>().await;
             }
